@@ -48,7 +48,10 @@ def innermost_in_repo(tb):
 
 def _call(args):
     try:
-        return _F(args)
+        import contextlib
+        import io
+        with contextlib.redirect_stdout(io.StringIO()):      # the library prints progress / warnings; verdict lines are printed by core only
+            return _F(args)
     except Exception:
         et, ev, tb = sys.exc_info()
         return ("__exc__", "".join(traceback.format_exception(et, ev, tb)), innermost_in_repo(tb))
